@@ -2445,7 +2445,11 @@ class Lowerer:
                             (mangle(ct), ct, ct, ct))
             return '%s(%s, %s)' % (h, self.addr(args[0]), self.addr(args[1]))
         if name in ('isfinite', 'isnan', 'isinf') and n == 1:
-            return '(%s(%s) != 0)' % (name, self.expr(args[0]))
+            # IEEE classification by comparisons (goto-cc has no body for the __builtin_ forms)
+            h = self.helper('verif_fpclass', 'static inline _Bool verif_isnan(double x) { return x != x; }\n'
+                            'static inline _Bool verif_isinf(double x) { return x == (1.0 / 0.0) || x == -(1.0 / 0.0); }\n'
+                            'static inline _Bool verif_isfinite(double x) { return x == x && x != (1.0 / 0.0) && x != -(1.0 / 0.0); }')
+            return 'verif_%s((double)(%s))' % (name, self.expr(args[0]))
         if name in ('fabs', 'sqrt', 'floor', 'ceil', 'abs', 'fmax', 'fmin', 'round', 'fma', 'copysign') and n >= 1:
             at = self.ty(args[0]['type']).noref()
             if name == 'abs' and at.name in ('double', 'float'):
